@@ -42,7 +42,9 @@ func genC04Host(t *tape.Tape, tok string, uniq int) string {
 		return withPort(tok + ".ok.example")
 	case 1: // deny-list candidates
 		return withPort([]string{tok + ".denied.example", "bad-" + tok + ".ok.example", "allowed.denied.example", tok + ".CaseDenied.Example",
-			tok + "-fine.denied.example", tok + ".DENIED.example", tok + ".denied.example.ok.example"}[t.Intn(7)])
+			tok + "-fine.denied.example", tok + ".DENIED.example", tok + ".denied.example.ok.example",
+			// one name in several spellings within a run (the rules are case-sensitive unless they say otherwise)
+			"Shared.Denied.Example", "shared.denied.example", "SHARED.DENIED.EXAMPLE", "shared.denied.example"}[t.Intn(11)])
 	case 2: // look-alikes of localhost: not local
 		return withPort([]string{"localhost." + tok + ".ok.example", "127.0.0.1." + tok + ".ok.example", "notlocal.local"}[t.Intn(3)])
 	case 3:
@@ -63,7 +65,15 @@ func genC04Host(t *tape.Tape, tok string, uniq int) string {
 
 func genC04Auth(t *tape.Tape, user, pass string) []string {
 	right := "Basic " + b64(user+":"+pass)
-	switch t.Pick(8, 3, 1, 1, 1, 1, 1, 1, 1, 1, 1, 1) {
+	switch t.Pick(8, 3, 1, 1, 1, 1, 1, 1, 1, 1, 1, 1, 1) {
+	case 12:
+		// the right token with the case of its letters changed: base64 is case-sensitive, these are other credentials
+		tokn := b64(user + ":" + pass)
+		alt := []string{strings.ToUpper(tokn), strings.ToLower(tokn), tokn[:len(tokn)-2] + strings.ToUpper(tokn[len(tokn)-2:])}[t.Intn(3)]
+		if alt == tokn {
+			alt = strings.ToLower(tokn) + "x"
+		}
+		return []string{"Basic " + alt}
 	case 0:
 		return []string{right}
 	case 1:
